@@ -1,8 +1,8 @@
 From Coq Require Import ExtrOcamlBasic.
-Require Import Base Tables Utf8 Tree Recog Html Inl3b Driver Inl3e Render Fmt Entry SafeW.
+Require Import Base Tables Utf8 Tree Recog Html Inl3b Driver Inl3e Render Fmt Entry SafeW Stream.
 Extraction "model.ml" parseBlocks parseFull renderDoc formatDoc renderRoots renderRootsWith formatRoots refsOfRoots
   listItemNumber linkReference isTightList isOrdered bokW
   parseThematicBreak parseATXHeading parseSetextHeadingUnderline parseCodeFence parseListMarker
   normalizeURI isEmailAddress parseEmail filterRaw urlHexDigit
   isSpaceTabOrLineEnding isASCIILetter isASCIIDigit isASCIIPunctuation isASCIIControl isHex toLowerASCII
-  isUnquotedAttributeValueChar.
+  isUnquotedAttributeValueChar parseStream.
